@@ -2,6 +2,7 @@ import JanetModel.Spec.Model
 import JanetModel.Spec.Template
 import JanetModel.Spec.Fixed
 import JanetModel.Bytecode.VMPasses
+import JanetModel.Bytecode.VMMovopt
 
 /-!
 C15 - compiler specialisations of core functions preserve behaviour (theorems only).
@@ -392,5 +393,23 @@ open JanetModel.Bytecode.VMPasses in
     non-indexed operand) - the second disjunct is what holds on the unchanged tree -/
 theorem movopt_getindex : movoptRemovable .getIndex = none ∨ (movoptRemovable .getIndex = some .a ∧ ¬ (Op.getIndex ∈ pureOps)) := by
   decide +kernel
+
+open JanetModel.Bytecode.VMPasses in
+/-- the full table condition holds exactly when `JOP_GET_INDEX` is not removable -/
+theorem movopt_tables_sound_or_getindex : movoptTablesOk = true ∨ movoptRemovable .getIndex = some .a := by
+  decide +kernel
+
+open JanetModel.Bytecode.VMPasses in
+/-- ★ `movopt_preserves` instantiated with the regenerated tables, for code without `JOP_GET_INDEX` (all code, once that opcode is
+    no longer in the removable set - then `movoptTablesOk` holds outright, see `movopt_tables_sound_or_getindex`) -/
+theorem movopt_preserves_instance (D : Nat → Bool) (code code' : List Instr)
+    (hnogeti : ∀ x ∈ code, x.op ≠ .getIndex)
+    (hreadsC : ∀ x ∈ code, ∀ g ∈ movoptReads x.op, D (fieldVal x g) = false)
+    (hchg : ∀ (i : Nat) (x : Instr), code[i]? = some x →
+      code'[i]? = some x ∨ (code'[i]? = some ⟨.noop, 0⟩ ∧ ∃ f, movoptRemovable x.op = some f ∧ D (fieldVal x f) = true))
+    (fuel : Nat) (s : List P.V) (pc : Nat) (w : P.W) (r : Except P.E P.V × P.W)
+    (h : exec P code fuel ⟨s, pc⟩ w = some r) : exec P code' fuel ⟨s, pc⟩ w = some r :=
+  movopt_preserves_tables P D code code' hreadsC
+    (fun x hx => movopt_tables_sound_partial x.op (by cases x.op <;> decide) (hnogeti x hx)) hchg fuel s pc w r h
 
 end JanetModel.Props.C15
